@@ -1,4 +1,5 @@
 use std::collections::HashSet;
+use syn::ext::IdentExt;
 use syn::visit_mut::VisitMut;
 
 #[derive(Copy, Clone, Eq, PartialEq)]
@@ -35,7 +36,8 @@ pub fn fix_fn_param_idents(sig: &mut syn::Signature) {
 
 fn fix_ident_conflicts(sig: &mut syn::Signature) -> ParamStatus {
     let mut status = ParamStatus::Ok;
-    let fn_ident_string = sig.ident.to_string();
+    // `r#foo` and `foo` are the same identifier
+    let fn_ident_string = sig.ident.unraw().to_string();
     let mut taken_idents = plain_param_idents(sig);
     // Renaming waits until every parameter is a plain identifier (see fix_fn_param_idents),
     // so that the new name can avoid all of them:
@@ -55,7 +57,7 @@ fn fix_ident_conflicts(sig: &mut syn::Signature) -> ParamStatus {
                     param_ident.mutability = None;
                     param_ident.subpat = None;
 
-                    if all_plain && param_ident.ident == fn_ident_string {
+                    if all_plain && param_ident.ident.unraw() == fn_ident_string {
                         // format_ident! copes with raw identifiers (`r#match` -> `match_`)
                         let mut new_ident = quote::format_ident!(
                             "{}_",
@@ -145,7 +147,7 @@ fn plain_param_idents(sig: &syn::Signature) -> HashSet<String> {
         .filter_map(|fn_arg| match fn_arg {
             syn::FnArg::Receiver(_) => None,
             syn::FnArg::Typed(pat_type) => match pat_type.pat.as_ref() {
-                syn::Pat::Ident(pat_ident) => Some(pat_ident.ident.to_string()),
+                syn::Pat::Ident(pat_ident) => Some(pat_ident.ident.unraw().to_string()),
                 _ => None,
             },
         })
@@ -155,7 +157,7 @@ fn plain_param_idents(sig: &syn::Signature) -> HashSet<String> {
 fn autogenerate_for_non_idents(sig: &mut syn::Signature) {
     let mut taken_idents = plain_param_idents(sig);
     // a generated name must not shadow the fn that is going to be called
-    taken_idents.insert(sig.ident.to_string());
+    taken_idents.insert(sig.ident.unraw().to_string());
 
     fn generate_ident(index: usize, attempts: usize, taken_idents: &mut HashSet<String>) -> String {
         let ident = format!(
